@@ -66,19 +66,20 @@ def check_canonical(cfg):
     return bad
 
 
-def check_link(c1, c2, time_axis, masked):
-    """push located data on Output(g1), pull on Input(g2)"""
+def check_link(c1, c2, time_axis, masked, units=("m", "m")):
+    """push located data on Output(g1), pull on Input(g2); with units[0] != units[1] the link also converts units"""
     g1, g2 = build(c1), build(c2)
     a, shape1, _ = located_array(c1, masked)
     want, shape2, ref2 = located_array(c2, masked)
-    out = fm.Output("o", fm.Info(time=T0, grid=g1, units="m"))
-    inp = fm.Input("i", fm.Info(time=T0, grid=g2, units="m"))
+    out = fm.Output("o", fm.Info(time=T0, grid=g1, units=units[0]))
+    inp = fm.Input("i", fm.Info(time=T0, grid=g2, units=units[1]))
     out >> inp
     inp.ping()
     try:
         inp.exchange_info()
     except Exception as e:  # noqa
         return [("exchange_refused", f"{type(e).__name__}: {str(e)[:80]}")]
+    scale = {("m", "m"): 1.0, ("m", "km"): 1e-3, ("km", "m"): 1e3}[tuple(units)]
     try:
         out.push_data(a[np.newaxis, ...] if time_axis else a, T0)
         d = inp.pull_data(T0)
@@ -90,12 +91,14 @@ def check_link(c1, c2, time_axis, masked):
     bad = []
     got = np.ma.getdata(mag)[0]
     keep = ~np.ma.getmaskarray(want) if masked else np.ones(shape2, dtype=bool)
-    if not np.allclose(got[keep], np.ma.getdata(want)[keep]):
-        bad.append(("values_not_at_same_location", f"delivered {got.tolist()} want {np.ma.getdata(want).tolist()}"))
+    if str(d.units) != str(fm.UNITS.Unit(units[1])):
+        bad.append(("units", f"{d.units} != {units[1]}"))
+    if not np.allclose(got[keep], np.ma.getdata(want)[keep] * scale, rtol=1e-12):
+        bad.append(("values_not_at_same_location" if scale == 1.0 else "values_wrong_after_relayout_and_conversion", f"delivered {got.tolist()} want {(np.ma.getdata(want) * scale).tolist()}"))
     if masked:
         if not (np.ma.isMaskedArray(mag) and np.array_equal(np.ma.getmaskarray(mag)[0], np.ma.getmaskarray(want))):
             bad.append(("mask_not_at_same_location", ""))
-    if c1 == c2 and not np.array_equal(got, np.ma.getdata(a)):
+    if c1 == c2 and scale == 1.0 and not np.array_equal(got, np.ma.getdata(a)):
         bad.append(("equal_layout_not_passed_through", ""))
     return bad
 
@@ -131,11 +134,13 @@ def run_case(case):
                 res["violations"].append(viol(dict(kind="canonical", clause=clause), f"{cfg}: {clause} {detail}", dict(kind="canon", cfgs=[cfg])))
         res["sample"] = dict(kind="canon", cfg=case["cfgs"][0])
     elif kind == "link":
-        for c1, c2, ta, mk in case["items"]:
+        for item in case["items"]:
+            c1, c2, ta, mk = item[:4]
+            un = tuple(item[4]) if len(item) > 4 else ("m", "m")
             res["n"] += 1
             res["nontrivial"] += 1 if c1 != c2 else 0
-            for clause, detail in check_link(c1, c2, ta, mk):
-                res["violations"].append(viol(dict(kind="link_delivery", how=clause), f"Output({c1}) -> Input({c2}) time_axis={ta} masked={mk}: {clause} {detail[:200]}", dict(kind="link", items=[[c1, c2, ta, mk]])))
+            for clause, detail in check_link(c1, c2, ta, mk, un):
+                res["violations"].append(viol(dict(kind="link_delivery", how=clause), f"Output({c1}, {un[0]}) -> Input({c2}, {un[1]}) time_axis={ta} masked={mk}: {clause} {detail[:200]}", dict(kind="link", items=[[c1, c2, ta, mk, list(un)]])))
         res["sample"] = dict(kind="link", src=case["items"][0][0], dst=case["items"][0][1], time_axis=case["items"][0][2], masked=case["items"][0][3])
     else:
         for c1, c2 in case["items"]:
@@ -158,7 +163,7 @@ def norm(case):
     if case["kind"] == "canon":
         return dict(case, cfgs=[fix(c) for c in case["cfgs"]])
     if case["kind"] == "link":
-        return dict(case, items=[[fix(a), fix(b), t, m] for a, b, t, m in case["items"]])
+        return dict(case, items=[[fix(it[0]), fix(it[1])] + list(it[2:]) for it in case["items"]])
     return dict(case, items=[[fix(a), fix(b)] for a, b in case["items"]])
 
 
@@ -183,6 +188,10 @@ def run(tier, seed, agg):
                     for ta, mk in ((True, False), (False, False), (True, True), (False, True)):
                         links.append([cfg_of(cls, dim, loc, l1), cfg_of(cls, dim, loc, l2), ta, mk])
                     compat.append([cfg_of(cls, dim, loc, l1), cfg_of(cls, dim, loc, l2)])
+                    if cls == "uniform" and dim < 3:
+                        # re-layout and unit conversion on the same link
+                        links.append([cfg_of(cls, dim, loc, l1), cfg_of(cls, dim, loc, l2), True, False, ["m", "km"]])
+                        links.append([cfg_of(cls, dim, loc, l1), cfg_of(cls, dim, loc, l2), False, True, ["km", "m"]])
     # square / cubic domains with identical coordinates on all axes (a transposed array has the same shape here)
     for dim, dims in ((2, (3, 3)), (3, (3, 3, 3))):
         for loc in ("CELLS", "POINTS"):
